@@ -68,6 +68,7 @@ class calculate_cost_of_non_vertical_section(Contract):
                   well_cost_adjustment_factor=Real)
     result = Real
     inline_callees = ("geophires_x/OptionList.py::WellDrillingCostCorrelation.calculate_cost_MUSD",)
+    per_m_name, sections_name = "nonvertical_drilling_cost_per_m", "num_nonvertical_sections"
 
     def configs(self):
         from geophires_x.OptionList import WellDrillingCostCorrelation
@@ -83,7 +84,7 @@ class calculate_cost_of_non_vertical_section(Contract):
     def requires(self, s):
         if s.well_correlation.val is None:
             return {}
-        return {"at_least_one_section": s.num_nonvertical_sections >= 1}
+        return {"at_least_one_section": getattr(s, self.sections_name) >= 1}
 
     def ensures(self, s, r):
         from geophires_x.OptionList import WellDrillingCostCorrelation as W
@@ -93,10 +94,10 @@ class calculate_cost_of_non_vertical_section(Contract):
         m = s.model.val
         if m.wellbores.Configuration.value.name == "VERTICAL":
             return {"no_lateral_cost_for_a_vertical_configuration": r == 0.0}
-        n = ToReal(s.num_nonvertical_sections)
+        n = ToReal(getattr(s, self.sections_name))
         per = s.length_m / n
         casing = If(s.NonverticalsCased, 1.0, 0.5)
-        simple = n * s.nonvertical_drilling_cost_per_m * per * 1E-6
+        simple = n * getattr(s, self.per_m_name) * per * 1E-6
         if c is W.SIMPLE or m.economics.Nonvertical_drilling_cost_per_m.Provided:
             base = simple
         else:
